@@ -35,6 +35,9 @@ PStep(Kind, s, call) ==
     [] call.fn \in {"OpenInFail", "OpenOutFail"} -> [s |-> s, ret |-> "err", dlv |-> <<>>]    \* reported, nothing changes, no call hangs
     [] call.fn = "OpenOut"  -> [s |-> [s EXCEPT !.outOpen = TRUE], ret |-> "nil", dlv |-> <<>>]
     [] call.fn = "CloseOut" -> [s |-> [s EXCEPT !.outOpen = FALSE], ret |-> "nil", dlv |-> <<>>]
+    \* the two ports opened at the same time by two goroutines (each port is used by one goroutine; only the driver is shared):
+    \* OpenIn and OpenOut commute, so the step is their composition
+    [] call.fn = "OpenBoth" -> [s |-> [s EXCEPT !.inOpen = TRUE, !.outOpen = TRUE], ret |-> "nil", dlv |-> <<>>]
     [] call.fn = "Listen"   -> [s |-> [s EXCEPT !.inOpen = TRUE, !.active = s.lastL + 1, !.lastL = s.lastL + 1, !.opts = AllOpts],   \* ListenTo opens the port
                                 ret |-> "nil", dlv |-> <<>>]
     [] call.fn = "ListenOpts" -> [s |-> [s EXCEPT !.inOpen = TRUE, !.active = s.lastL + 1, !.lastL = s.lastL + 1, !.opts = call.opts],
